@@ -714,30 +714,10 @@ def max_dev(a, b):
     return 0.0
 
 
-def has_marker(game, before):
-    """open finding N13a: an osu map whose preview_time is the "no preview point" marker (negative)"""
-    return game == "osu" and any(m.get("preview") is not None and F(m["preview"]) < 0 for m in before["maps"])
-
-
-def restore_markers(before, out):
-    """`out` with the preview marker of every marker map put back (what the specification demands there)"""
-    o = _copy.deepcopy(out)
-    for mb, mo in zip(before["maps"], o["maps"]):
-        if mb.get("preview") is not None and F(mb["preview"]) < 0:
-            mo["preview"] = mb["preview"]
-    return o
-
-
 def spec_verdict(drv, game, kind, r, eps, before, out):
-    """-> (dom, "ok" | "n13a" | "fail"): the specification on `out`; "n13a" = it fails only in the preview marker"""
+    """-> (dom, "ok" | "fail"): the specification evaluated on `out`"""
     sp = drv.call("c13.set_scales", game=game, kind=kind, r=R(r), eps=eps, set=before, out=out)["ok"]
-    if sp["holds"]:
-        return sp["dom"], "ok"
-    if has_marker(game, before) and len(before["maps"]) == len(out["maps"]):
-        sp2 = drv.call("c13.set_scales", game=game, kind=kind, r=R(r), eps=eps, set=before, out=restore_markers(before, out))["ok"]
-        if sp2["holds"]:
-            return sp["dom"], "n13a"
-    return sp["dom"], "fail"
+    return sp["dom"], ("ok" if sp["holds"] else "fail")
 
 
 def kind_of(game, level):
@@ -811,12 +791,10 @@ def run_rate(case, drv):
             detail[f"aliased_{k}"] = True
     # specification on the implementation's output
     r_one = routes["one"][0]
-    marker_only = []          # specification failures that are exactly the open finding N13a
     if "one" in outs:
         dom, v = spec_verdict(drv, game, kind, r_one, eps, before, outs["one"])
         if v != "ok":
             ok = False
-            marker_only.append(v == "n13a")
             detail["spec"] = dict(r=str(r_one), inp=before, out=outs["one"],
                                   want=drv.call("c13.scale_set", game=game, kind=kind, r=R(r_one), set=before)["ok"])
     else:
@@ -844,7 +822,6 @@ def run_rate(case, drv):
                                  before, outs["two"])
             if v2 != "ok":
                 ok = False
-                marker_only.append(v2 == "n13a")
                 detail["comp_spec"] = dict(out=outs["two"])
     has_time = any(f["rows"] for m in before["maps"] for _, f in m["lists"])
     nontrivial = has_time and any(r != 1 for v in routes.values() for r in v)
@@ -853,9 +830,7 @@ def run_rate(case, drv):
     if any(not f["rows"] for m in before["maps"] for _, f in m["lists"]):
         tags.append("some-empty-list")
     kf = None
-    other_failures = [k for k in detail if k not in ("spec", "comp_spec") and not k.startswith("corr_")]
-    if not ok and marker_only and all(marker_only) and not other_failures:
-        kf = "N13a"
+    if game == "osu" and any(m.get("preview") is not None and F(m["preview"]) < 0 for m in before["maps"]):
         tags.append("preview-marker")
     res = dict(claim=claim, ok=ok, agree=agree, dom=bool(dom), kf=kf, tags=tags, nontrivial=nontrivial, maxdev=maxdev)
     if not (ok and agree):
@@ -1057,7 +1032,6 @@ def run_writeread(case, drv):
     _, v_mem = spec_verdict(drv, game, kind, r, R(EPS_T), c0, mem)
     # read-back of the written rated chart against the specification: the rated timeline
     d_wr, v_wr = spec_verdict(drv, game, kind, r, R(EPS_WR), c0, got)
-    marker = "n13a" in (v_mem, v_wr) and "fail" not in (v_mem, v_wr)
     sp_mem = dict(holds=v_mem != "fail")
     sp = dict(holds=v_wr != "fail", dom=d_wr)
     ok = sp["holds"] and sp_mem["holds"]
@@ -1070,10 +1044,6 @@ def run_writeread(case, drv):
             kf = "D05"          # BMS long-note tails are paired in file order: not caused by the rate change
         else:
             ok = bool(sp_mem["holds"])   # no verdict on the file level: the format does not carry this chart
-    if ok and marker and kf is None:
-        # everything scales except that osu's "no preview point" marker was rated (and written as a preview point)
-        ok, kf, dom = False, "N13a", False
-        tags.append("preview-marker")
     if not ok:
         detail = dict(r=str(r), base=c0, rated_in_memory=mem, read_back=got, base_again=c0_again,
                       want=drv.call("c13.scale_set", game=game, kind=kind, r=R(r), set=c0)["ok"])
